@@ -622,6 +622,11 @@ func assignIPFromLocalPool(log logr.Logger, podsMapper map[string]*PodRequest, i
 						continue
 					}
 
+					if info.ipv6Ref != nil && v.NetworkInterface.ID != info.ipv6Ref.NetworkInterface.ID {
+						// the pod keeps its ipv6 address, ipv4 must come from the same eni
+						continue
+					}
+
 					// schedule to erdma card
 					if info.RequireERDMA &&
 						v.NetworkInterface.NetworkInterfaceTrafficMode != networkv1beta1.NetworkInterfaceTrafficModeHighPerformance {
